@@ -22,6 +22,8 @@ type jobHist struct {
 	id   string
 	jb   *job
 	jb2  *job // the job object of the second trigger (Mixed)
+	// failedFull: a run of the fullsync trigger failed midway at some point of this history
+	failedFull bool
 	chk  *server.VCheck
 	viol []engine.Violation
 	last string
@@ -183,7 +185,10 @@ func (jh *jobHist) tokenSafety(when string) {
 					}
 				}
 			}
-			if !allowed {
+			if !allowed && jh.failedFull && jh.isOlderSourceVersion(id, got) {
+				// input class of the recorded known finding: a fullsync that failed midway wrote an older version back
+				jh.fail("KF-failed-fullsync-regresses-sink:token:"+when, fmt.Sprintf("%s: token of %s is %d, past change #%d (%s=%s), but the sink holds the older version %s written back by a fullsync run that failed midway", when, s, toks[s], k, id, f.cs[k], got))
+			} else if !allowed {
 				jh.fail("token-ahead:"+when, fmt.Sprintf("%s: token of %s is %d, which is past change #%d (%s=%s), but the sink holds %s: that change was never delivered", when, s, toks[s], k, id, f.cs[k], got))
 			}
 		}
@@ -213,7 +218,7 @@ func (jh *jobHist) converged(when string) {
 		}
 		if !match {
 			clause := "converge-content:" + when
-			if strings.Contains(when, "of the second trigger") && jh.isOlderSourceVersion(id, got) {
+			if (strings.Contains(when, "of the second trigger") || jh.failedFull) && jh.isOlderSourceVersion(id, got) {
 				// input class of the recorded known finding: the failed fullsync replayed the source history from the
 				// start and stopped after writing an OLDER version of this entity over the newer one
 				clause = "KF-failed-fullsync-regresses-sink:" + when
@@ -426,6 +431,11 @@ func vReplayJob(task engine.SeqTask) (res engine.SeqResult) {
 			}
 			ran = true
 			r, panicked := jh.runWith(jh.jb2, map[string]string{"run2": "", "run2fail": "fail"}[op.K], op.N)
+			if r != nil && r.LastError != "" {
+				jh.failedFull = true
+			} else if op.K == "run2" {
+				jh.failedFull = false // a completed fullsync repairs the sink
+			}
 			if !last {
 				continue
 			}
@@ -451,6 +461,13 @@ func vReplayJob(task engine.SeqTask) (res engine.SeqResult) {
 			tokBefore := jw.token(jh.id)
 			ran = true
 			r, panicked := jh.run(mode, op.N)
+			if p.Spec.JobType == "fullsync" {
+				if r != nil && r.LastError != "" {
+					jh.failedFull = true
+				} else if op.K == "run" {
+					jh.failedFull = false // a completed fullsync repairs the sink
+				}
+			}
 			if !last {
 				continue
 			}
